@@ -1,6 +1,9 @@
 package props
 
-import "testing"
+import (
+	"fmt"
+	"testing"
+)
 
 func TestC16HdrRapid(t *testing.T)   { C16Hdr.RunRapid(t) }
 func TestC16MthRapid(t *testing.T)   { C16Mth.RunRapid(t) }
@@ -26,10 +29,10 @@ func TestC16Enum(t *testing.T) {
 	C16Mth.RunCases(t, "every method name + every 4-byte suffix over {NUL,SP,-,A,a,e,E,0xff} and 8 equal bytes (same hash bucket)", true, func(emit func(CaseName) bool) {
 		enumPadded(mthTableNames(), emit)
 	})
-	C16Hdr.RunShards(t, "GetHdrType on all byte strings of length 0..3", maxLen >= 3, 64, func(s int, emit func(CaseName) bool) {
+	C16Hdr.RunShards(t, fmt.Sprintf("GetHdrType on all byte strings of length 0..%d", maxLen), maxLen >= 3, 64, func(s int, emit func(CaseName) bool) {
 		enumShort(maxLen, s, 64, emit)
 	})
-	C16Mth.RunShards(t, "GetMethodNo on all byte strings of length 0..3", maxLen >= 3, 64, func(s int, emit func(CaseName) bool) {
+	C16Mth.RunShards(t, fmt.Sprintf("GetMethodNo on all byte strings of length 0..%d", maxLen), maxLen >= 3, 64, func(s int, emit func(CaseName) bool) {
 		enumShort(maxLen, s, 64, emit)
 	})
 	C16Round.RunCases(t, "all 256 numeric methods: name and back", true, func(emit func(CaseMthNo) bool) {
